@@ -3,6 +3,7 @@ import subprocess, os
 from common import *
 
 DRIVER = os.path.join(VERIF, 'lean', '.lake', 'build', 'bin', 'driver')
+SPEC_DRIVER = os.path.join(VERIF, 'lean', '.lake', 'build', 'bin', 'specdriver')
 
 
 def cfg_line(cfg):
@@ -41,9 +42,9 @@ def case_lines(triples, cfg, what, cid, sel_flags=None):
     return out
 
 
-def run_driver(lines):
+def run_driver(lines, spec_only=False):
     """feed protocol lines, return {case id: [output lines]}"""
-    p = subprocess.run([DRIVER], input="\n".join(lines) + "\n", capture_output=True, text=True, timeout=600)
+    p = subprocess.run([SPEC_DRIVER if spec_only else DRIVER], input="\n".join(lines) + "\n", capture_output=True, text=True, timeout=600)
     if p.returncode != 0:
         raise RuntimeError("driver failed: " + p.stderr[:500])
     res = {}
